@@ -541,6 +541,7 @@ class FT:
             if t.bits in (8, 16, 32): return '((uint%d_t)%s)' % (t.bits, e)
             if t.bits == 1: return '((_Bool)%s)' % e
             if t.bits == 128: return '((unsigned __int128)%s)' % e
+            return '((unsigned __CPROVER_bitvector[%d])%s)' % (t.bits, e)
         raise Unsupported("cast_u %r" % (t,))
 
     def mulop(s, op, a, b, t):
